@@ -239,6 +239,13 @@ Theorem C04_footprint_cache_history_covers : forall reqs st, cache_ok st -> Fora
 Proof. exact approx_history_covers. Qed.
 Print Assumptions C04_footprint_cache_history_covers.
 
+(* the same for EVERY padding rule that does not shrink the request (in particular 100 * height, branch fix-C04-footprint-slab-padding) *)
+Theorem C04_footprint_cache_any_padding : forall padf, (forall c h, 0 <= h -> h <= padf c h) ->
+  forall reqs st, cache_ok st -> Forall (fun r => 0 <= snd r) reqs ->
+  Forall2 (fun s r => slab_covers s (fst r) (snd r)) (run_requests (approx_with padf padf) st reqs) reqs.
+Proof. exact approx_gen_history_covers. Qed.
+Print Assumptions C04_footprint_cache_any_padding.
+
 (* recording the padded height while building the slab with the requested one (seeded/C04-3) breaks at the second request *)
 Theorem C04_footprint_cache_seeded_refuted : exists reqs, Forall (fun r => 0 <= snd r) reqs /\
   ~ Forall2 (fun s r => slab_covers s (fst r) (snd r)) (run_requests approx_seeded None reqs) reqs.
